@@ -96,6 +96,10 @@ class Conv:
                 return self._at(ast.UnaryOp(op=ast.Not(), operand=self.expr(e.x)), e)
             if op in ("^", "~"):
                 return self._at(ast.UnaryOp(op=ast.Invert(), operand=self.expr(e.x)), e)
+            if op in ("++", "--") and e.x.k == "id":
+                # value-producing increment / decrement of a local: kept as a marked call the path engine understands
+                fnm = "__postinc__" if e.get("postfix") else "__preinc__"
+                return self._at(ast.Call(func=ast.Name(id=fnm, ctx=ast.Load()), args=[ast.Constant(value=e.x.name), ast.Constant(value=1 if op == "++" else -1)], keywords=[]), e)
             return self._at(ast.Call(func=ast.Name(id=f"op{op}", ctx=ast.Load()), args=[self.expr(e.x)], keywords=[]), e)
         if k == "bin":
             op = e.op
@@ -186,6 +190,38 @@ class Conv:
             return [N("assign", p.get("line", 0), lhs=[p.l], op=p.op, rhs=[p.r])]
         return [p]
 
+    def _countdown(self, s: Node) -> Optional[ast.stmt]:
+        """`while (v-- > 0) body` / `while (v--) body` with v untouched in the
+        body runs the body v times: re-encoded as `for __n in range(v)`."""
+        if s.get("init") is not None or s.get("post") is not None or s.get("cond") is None:
+            return None
+        c = s.cond
+        while c.k == "paren":
+            c = c.x
+        dec = None
+        if c.k == "bin" and c.op == ">" and c.r.k == "int" and c.r.v == 0:
+            dec = c.l
+        elif c.k == "un":
+            dec = c
+        while dec is not None and dec.k == "paren":
+            dec = dec.x
+        if dec is None or dec.k != "un" or dec.op != "--" or not dec.get("postfix") or dec.x.k != "id":
+            return None
+        v = dec.x.name
+
+        def mentions(n: Any) -> bool:
+            if isinstance(n, dict):
+                if n.get("k") == "id" and n.get("name") == v:
+                    return True
+                return any(mentions(x) for x in n.values())
+            if isinstance(n, list):
+                return any(mentions(x) for x in n)
+            return False
+
+        if mentions(s.body):
+            return None
+        return self._at(ast.For(target=ast.Name(id="__n", ctx=ast.Store()), iter=ast.Call(func=ast.Name(id="range", ctx=ast.Load()), args=[ast.Name(id=v, ctx=ast.Load())], keywords=[]), body=self.stmts(s.body.stmts) or [ast.Pass()], orelse=[]), s)
+
     def _canonical_for(self, s: Node) -> Optional[ast.stmt]:
         i, c, p = s.get("init"), s.get("cond"), s.get("post")
         if i is None or c is None or p is None:
@@ -257,6 +293,9 @@ class Conv:
             c = self._canonical_for(s)
             if c is not None:
                 return [c]
+            cd = self._countdown(s)
+            if cd is not None:
+                return [cd]
             pre = self.stmt(s.init) if s.get("init") is not None else []
             body = self.stmts(s.body.stmts)
             if s.get("post") is not None:
